@@ -399,6 +399,25 @@ def run_case(case, sb):
                 results.append({k: r[k] for k in ("lines", "variables", "scan_count", "match_count", "is_valid", "errors", "printouts", "raised")})
             if not problems and any(r != results[0] for r in results[1:]):
                 problems.append({"layouts_disagree": results, "texts": texts})
+            if not problems:
+                # the same csvpath configured through the API (logic mode / return mode set in code):
+                # an outer comment without mode settings must not change the run
+                for api in ("OR", "collect_when_not_matched"):
+                    def pre(p, api=api):
+                        setattr(p, api, True)
+                    plain = f"${rel}[{case['scan']}]{texts[0]}"
+                    noted = "~ just a note, nothing else ~\n" + plain
+                    after = plain + "\n~ a trailing remark ~"
+                    ra = real.run_path(plain, pre=pre)
+                    for other in (noted, after):
+                        rb = real.run_path(other, pre=pre)
+                        ka = {k: ra[k] for k in ("lines", "variables", "scan_count", "match_count", "is_valid", "printouts", "raised")}
+                        kb = {k: rb[k] for k in ("lines", "variables", "scan_count", "match_count", "is_valid", "printouts", "raised")}
+                        if ka != kb:
+                            problems.append({"api_setting": api, "without_comment": plain, "with_comment": other, "a": ka, "b": kb})
+                            break
+                    if problems:
+                        break
     ok = not problems
     return core.outcome(ok=ok, nontrivial=nontrivial, labels=labels,
                         detail=None if ok else dict(summary, problems=problems[:3]), summary=summary)
